@@ -3,8 +3,8 @@
 (* The control loop of BaseSDESolver.integrate (torchsde/_core/base_solver) *)
 (* as a state machine, one action per critical section, together with the   *)
 (* properties C12 (GridSteps, OutputForm, OutputInvariance), C13 (ChunkEq)  *)
-(* and C14 (Tiling, MinStep, AcceptRule, HalfStepValue, RetrySmaller,       *)
-(* Terminates).                                                             *)
+(* and C14 (Tiling, MinStep, AcceptRule, HalfStepValue, RejectKeepsState,   *)
+(* AcceptedOnly, RetrySmaller, Terminates).                                 *)
 (*                                                                         *)
 (* Times are integer ticks, t0 = 0.  In adaptive mode every step size, T   *)
 (* and dt_min are even so that the midpoint of a trial is a tick as well.   *)
@@ -225,7 +225,8 @@ Reject ==
   /\ pc = "decide" /\ ~AcceptCond
   /\ sched' = H(sched, SchedRec(FALSE))
   /\ pc' = "loop"
-  /\ UNCHANGED <<cfg, phase, currT, prevT, currY, prevY, currE, step, mem, oi, tr, gi, lastR, ntr,
+  /\ currE' = IF Bug = "extraOnReject" THEN tr.halfE ELSE currE    \* a rejected trial leaves (y, extra) alone
+  /\ UNCHANGED <<cfg, phase, currT, prevT, currY, prevY, step, mem, oi, tr, gi, lastR, ntr,
                  queries, outs, outK, acc, gridY, outs1>>
 
 (* ys.append(linear_interp(prev_t, prev_y, curr_t, curr_y, out_t)) *)
@@ -372,10 +373,29 @@ HalfStepValueAct ==
   (pc = "decide" /\ gi' = gi + 1) =>
        /\ currY' = StepY(StepY(currY, currE, tr.a, tr.m),
                          StepE(currY, currE, tr.a, tr.m, cfg.has), tr.m, tr.b)
+       /\ currE' = StepE(StepY(currY, currE, tr.a, tr.m),
+                         StepE(currY, currE, tr.a, tr.m, cfg.has), tr.m, tr.b, cfg.has)
        /\ currY' # StepY(currY, currE, tr.a, tr.b)
        /\ 2 * tr.m = tr.a + tr.b
        /\ prevY' = currY /\ prevT' = currT
 HalfStepValue == [][HalfStepValueAct]_vars
+\* a rejected trial changes nothing but the step size: the retry starts from the same (t, y, extra), so the
+\* returned values are those of the two-half-step solution on the ACCEPTED steps only
+RejectKeepsStateAct ==
+  (pc = "decide" /\ pc' = "loop" /\ gi' = gi) =>
+       (currT' = currT /\ currY' = currY /\ currE' = currE /\ prevT' = prevT /\ prevY' = prevY)
+RejectKeepsState == [][RejectKeepsStateAct]_vars
+\* hence every trial starts from the state the accepted steps alone produce
+RECURSIVE AccPair(_, _, _)
+AccPair(sofar, k, s) ==            \* fold the accepted steps (a, m, b) of s over <<y, extra>>
+  IF k > Len(s) THEN sofar
+  ELSE AccPair(IF s[k].acc
+                 THEN <<Half2Y(sofar[1], sofar[2], s[k].a, s[k].m, s[k].b, cfg.has),
+                        Half2E(sofar[1], sofar[2], s[k].a, s[k].m, s[k].b, cfg.has)>>
+                 ELSE sofar, k + 1, s)
+AcceptedOnly ==
+  (Mode = "adaptive" /\ KeepHist /\ pc \in {"loop", "done"}) =>
+     LET p == AccPair(<<Y0, Extra0(cfg.has)>>, 1, sched) IN currY = p[1] /\ currE = p[2]
 \* outputs of an adaptive run interpolate between accepted grid states
 OutputFormA ==
   (Mode = "adaptive" /\ KeepHist) =>
@@ -405,10 +425,12 @@ Detect ==
   /\ ~MinStepSize => Caught("MinStepSize")
   /\ ~OutputFormA => Caught("OutputFormA")
   /\ ~TrialBound => Caught("TrialBound")
+  /\ ~AcceptedOnly => Caught("AcceptedOnly")
 DetectAct ==
   /\ ~AcceptRuleAct => Caught("AcceptRule")
   /\ ~RetrySmallerAct => Caught("RetrySmaller")
   /\ ~HalfStepValueAct => Caught("HalfStepValue")
+  /\ ~RejectKeepsStateAct => Caught("RejectKeepsState")
   /\ ~TilingStepAct => Caught("TilingStep")
 
 (* ---- JSON for the conformance harness ---- *)
